@@ -1,6 +1,8 @@
 use crate::util::Tier;
 pub mod c06;
+pub mod c07;
 pub mod c09;
+pub mod hist;
 pub mod c10;
 pub mod c11;
 pub mod c12;
@@ -24,6 +26,7 @@ pub fn run(prop: &str, tier: Tier, seed: u64) -> i32 {
         "C17" => steps::run(steps::StepProp::C17, tier, seed),
         "C18" => c18::run(tier, seed),
         "C06" => c06::run(tier, seed),
+        "C07" => c07::run(tier, seed),
         "C09" => c09::run(tier, seed),
         "C10" => c10::run(tier, seed),
         "C11" => c11::run(tier, seed),
@@ -63,6 +66,7 @@ pub fn replay(file: &str) -> i32 {
         ("C05", "scenario") => paths::replay(paths::PathProp::C05, rp, file),
         ("C18", "prm") => c18::replay(rp, file),
         ("C06", "c06") => c06::replay(rp, file),
+        ("C07", "history") => c07::replay(rp, file),
         ("C15", "steps") => steps::replay(steps::StepProp::C15, rp, file),
         ("C16", "steps") => steps::replay(steps::StepProp::C16, rp, file),
         ("C17", "steps") => steps::replay(steps::StepProp::C17, rp, file),
